@@ -18,11 +18,17 @@ directly calling GIT (for development).
         pass
 
     try:
+        import os
         import subprocess
+        # describe the source tree of the package, not whatever
+        # repository the current working directory happens to be in
+        srcdir = os.path.dirname(os.path.abspath(__file__))
         version = subprocess.check_output(
-            ["git", "describe", "--tags", "--always"]).strip().decode('utf-8')
+            ["git", "describe", "--tags", "--always"],
+            cwd=srcdir,
+            stderr=subprocess.DEVNULL).strip().decode('utf-8')
         return version
-    except subprocess.CalledProcessError:
+    except (subprocess.CalledProcessError, OSError):
         pass
 
 
